@@ -421,6 +421,55 @@ def parse_cbmc_json(path: Path):
     return res
 
 
+WAKER_SITES = {
+    "core::task::Waker::wake": "wake",
+    "core::task::Waker::wake_by_ref": "wake_by_ref",
+    "<core::task::Waker as core::clone::Clone>::clone": "clone",
+    "<core::task::Waker as core::ops::Drop>::drop": "drop",
+    "std::task::Waker::wake": "wake",
+    "std::task::Waker::wake_by_ref": "wake_by_ref",
+    "<std::task::Waker as std::clone::Clone>::clone": "clone",
+    "<std::task::Waker as std::ops::Drop>::drop": "drop",
+}
+
+
+def restrict_waker_calls(out: Path, wd: Path) -> int:
+    """`Waker::{wake, wake_by_ref, clone, drop}` call through the fn pointers of a
+    RawWakerVTable.  CBMC resolves an indirect call by signature, and `fn(*const ())` matches
+    every unary drop glue in the program (io::Error's included): each waker operation then
+    explores all of them.  The only wakers in these single-threaded harnesses are the
+    harness's own (`*_raw::{clone,wake,drop,noop}`); restrict the four call sites to them.
+    goto-instrument adds an assertion that the pointer is one of the listed targets, so a waker
+    from anywhere else is reported, not ignored."""
+    try:
+        lst = subprocess.run(["goto-instrument", "--list-goto-functions", str(out)], capture_output=True, text=True, timeout=120).stdout
+    except Exception:
+        return 0
+    sites, targets = {}, []
+    for m in re.finditer(r"^(.+?) /\* (\S+?)(?:, body not available)? \*/$", lst, re.M):
+        pretty, mangled = m.group(1).strip(), m.group(2)
+        if pretty in WAKER_SITES:
+            sites[mangled] = WAKER_SITES[pretty]
+        elif re.search(r"_raw::(clone|wake|drop|noop)$", pretty):
+            targets.append((pretty, mangled))
+    if not sites or not targets:
+        return 0
+    restr = {}
+    for mangled, kind in sites.items():
+        if kind == "clone":
+            t = [m for p, m in targets if p.endswith("::clone")]
+        else:
+            t = [m for p, m in targets if not p.endswith("::clone")]
+        if t:
+            restr[f"{mangled}.function_pointer_call.1"] = sorted(set(t))
+    if not restr:
+        return 0
+    rf = wd / "waker-restrictions.json"
+    rf.write_text(json.dumps(restr))
+    rc, _, _, _ = run_proc(["goto-instrument", "--function-pointer-restrictions-file", str(rf), str(out), str(out)], 300, 8)
+    return len(restr) if rc == 0 else 0
+
+
 def run_harness(meta, spec: H, profile: str, workdir: Path, tier: str):
     """goto-cc / goto-instrument / cbmc for one harness, as Kani 0.68 does."""
     name = meta["pretty_name"].split("::")[-1]
@@ -441,11 +490,13 @@ def run_harness(meta, spec: H, profile: str, workdir: Path, tier: str):
          "--generate-function-body", ".*", "--drop-unused-functions", str(out), str(out)],
         ["goto-instrument", "--ensure-one-backedge-per-target", str(out), str(out)],
     ]
-    for c in steps:
+    for idx, c in enumerate(steps):
         rc, _, _, to = run_proc(c, 300, mem)
         if rc != 0:
             r.update(verdict="ERROR", reason=f"{c[0]} failed rc={rc}", wall_s=time.time() - t0)
             return r
+        if idx == 1:
+            r["waker_sites_restricted"] = restrict_waker_calls(out, wd)
     unwind = meta["attributes"].get("unwind_value")
     cmd = ["cbmc"] + CBMC_FLAGS[:-1]
     if unwind is not None:
@@ -578,7 +629,7 @@ def classify(r, spec: H):
 # --------------------------------------------------------------------------------------------
 def load_known():
     p = VERIF / "known_findings.json"
-    if not p.exists():
+    if not p.exists() or os.environ.get("VERIF_IGNORE_KNOWN"):
         return []
     return json.loads(p.read_text()).get("findings", [])
 
